@@ -303,8 +303,12 @@ def cbmc_cmd(obl, binary, extra=None):
     cmd += base + obl.flags
     if obl.unwind is not None:
         cmd += ["--unwind", str(obl.unwind)]
-    if obl.unwindset:
-        cmd += ["--unwindset", ",".join(obl.unwindset)]
+    # data-independent library loops whose trip count is a property of the word size, not of the input (a loop id that does not
+    # exist in the binary is only a warning): _cbor_highest_bit runs at most 64 (+1) times however it is written
+    us = list(obl.unwindset)
+    if not any(u.startswith("_cbor_highest_bit.0:") for u in us):
+        us.append("_cbor_highest_bit.0:66")
+    cmd += ["--unwindset", ",".join(us)]
     if obl.leak:
         cmd += ["--memory-leak-check"]
     if not obl.ptrcheck:
@@ -679,6 +683,24 @@ def run_all(obls, jobs=None, budget_s=None):
     def work(i):
         o = obls[i]
         r = run_obl(o)
+        if r.status == "FAIL" and not r.failed and r.unwinding_failed:
+            # only unwinding assertions failed: the stated bound was too small for this code (e.g. a refactoring that changed a loop's
+            # trip count). Retry once with every bound quadrupled; a loop that still does not terminate within that is then replayed
+            # natively (a hang is a violation of the termination clause, a clean run leaves the obligation undischarged).
+            import copy
+            o4 = copy.copy(o)
+            o4.unwind = None if o.unwind is None else o.unwind * 4
+            o4.unwindset = ["%s:%d" % (u.rsplit(":", 1)[0], int(u.rsplit(":", 1)[1]) * 4) for u in o.unwindset]
+            o4.timeout = o.timeout * 2
+            o4._traces = {}
+            r4 = run_obl(o4)
+            if r4.jobdir:
+                shutil.rmtree(r4.jobdir, ignore_errors=True)
+            r4.wall += r.wall
+            if not (r4.status == "FAIL" and not r4.failed):
+                r4.msg = (r4.msg + " [bounds x4 after an unwinding assertion failed at the stated bounds]").strip()
+                r4.obl = o
+                r = r4
         if r.status in ("TIMEOUT", "OOM") and o.pipeline == "cbmc" and not o.paths_first:
             # A defect that corrupts the heap can make the single monolithic formula blow up (garbage pointers are followed to every
             # object). Fallback: path-wise symbolic execution stopping at the first failing path. A failure found this way is a genuine
